@@ -92,7 +92,10 @@ def tweak(scn, rng):
                 d["beh"]["cb"]["p"] = rng.choice((2_000_000, 2_000_000, 4_000_000))
     if rng.random() < 0.4:
         names = [d["name"] for d in S.devices(scn)]
-        scn["stims"] = sorted([{"real": rng.randrange(1, 12) * 900_000 + 111, "comp": rng.choice(names)} for _ in range(rng.randrange(1, 4))], key=lambda s: s["real"])
+        # distinct arrival times: two interrupts at the very same instant are legitimately served by one
+        # or by two ticks depending on message latency (C07 covers simultaneous arrival)
+        times = rng.sample(range(1, 12), rng.randrange(1, 4))
+        scn["stims"] = sorted([{"real": k * 900_000 + 111, "comp": rng.choice(names)} for k in times], key=lambda s: s["real"])
     scn["n_ticks"] = rng.randrange(4, 9) if "n_ticks" in scn else 5
     return scn
 
